@@ -106,13 +106,13 @@ KINDS = {
     'symx_mpi': (dict(tbb=True, mpi=True), ['shim/tbb', 'shim/mpi'], ['-O1', '-g'], ['-lz3', '-lboost_timer']),
     'symx_asan': (dict(tbb=True, mpi=False), ['shim/tbb'],
                   ['-O1', '-g', '-fsanitize=address,undefined', '-fno-sanitize-recover=all', '-fno-omit-frame-pointer',
-                   '-DSYMX_SANITIZED'], ['-lz3', '-lboost_timer']),
+                   '-DSYMX_SANITIZED', '-D_GLIBCXX_SANITIZE_VECTOR'], ['-lz3', '-lboost_timer']),
     'real': (dict(tbb=True, mpi=True), [], ['-O1', '-g'], ['-lboost_timer', '-ltbb']),
     'real_nolib': (dict(tbb=True, mpi=True), [], ['-O1', '-g'], []),
     'real_mpi': (dict(tbb=True, mpi=True), [], ['-O1', '-g'] + subprocess.run(['mpicxx', '--showme:compile'], stdout=subprocess.PIPE, text=True).stdout.split(),
                  ['-lboost_mpi', '-lboost_serialization', '-lboost_timer', '-ltbb'] + subprocess.run(['mpicxx', '--showme:link'], stdout=subprocess.PIPE, text=True).stdout.split()),
     'real_asan': (dict(tbb=True, mpi=True), [],
-                  ['-O1', '-g', '-fsanitize=address,undefined', '-fno-sanitize-recover=all', '-fno-omit-frame-pointer'],
+                  ['-O1', '-g', '-fsanitize=address,undefined', '-fno-sanitize-recover=all', '-fno-omit-frame-pointer', '-D_GLIBCXX_SANITIZE_VECTOR'],
                   ['-lboost_timer', '-ltbb']),
 }
 
